@@ -105,11 +105,19 @@ PROPS = {
                       "with has a last insertion longer than 65535 bytes. Whole read: C17_editor_no_panic_partial — if readline ends "
                       "with the panic outcome then its final state is such a D43 state; covers next_cmd, every command, circular and "
                       "list completion, incremental search, the dispatch loop, quoted insert, suspend, the main loop (induction on "
-                      "the fuel; fuel exhaustion is the outcome fuel), the initial text and the final cursor move; GIVEN the open "
-                      "obligations C17_Open: Undo safe (conditional step proved: C17_undo_safe_of_log, under the C05 log invariant, "
-                      "which is re-established; carrying it through every command and the abort paths of the sub-loops is open), "
-                      "YankPop safe (conditional step proved: C17_yankPop_safe_of_popOK; the cross-step fact is open, and false in vi "
-                      "mode after p/P), ReplaceChar with a count above 65535 (does not exist in the code: counts are u16). The full "
+                      "the fuel; fuel exhaustion is the outcome fuel), the initial text and the final cursor move; GIVEN acceptable "
+                      "bindings (BindsI: a bound ReplaceChar count fits u16, YankPop not bound in vi mode) and the open "
+                      "obligations C17_Open J, stated for an ABSTRACT cross-step invariant J (the facts about undo log and kill ring "
+                      "that Undo / YankPop need; for RdInv alone the two obligations would be false, so they are not stated that "
+                      "way): from RdInv and J, Undo is safe and re-establishes both (for J = the C05 log invariant this is the proved "
+                      "C17_undo_safe_of_log; but that invariant is NOT kept by a vi-mode read: finding D47), the same for YankPop in "
+                      "EMACS mode (no-panic half proved for J = PopOK: C17_yankPop_safe_of_popOK), and every other command and "
+                      "every non-command step of the read keeps J. No such J is exhibited: the theorem is a proved reduction of "
+                      "'the only panic is D43' to these obligations, not the unconditional statement. "
+                      "Discharged by the result-tracking pass C17_next_cmd_returns (every command next_cmd returns, in both modes: a "
+                      "ReplaceChar count is <= 65535, and in vi mode it is never YankPop - C17_vi_never_yankPop for the default "
+                      "keymaps; C17_dispatch_returns: the sub-loops hand back only such commands): the former obligations about "
+                      "ReplaceChar counts above u16 and about YankPop in vi mode are gone. The full "
                       "statement C17_editor_no_panic_statement is kept as a def: as written it is not provable (completer start off a "
                       "boundary: C17_completer_start_inside_char_panics; D43). Signals and real timing are exercised, not proved.",
         "level_note": "Trusted: Lean kernel; pty harness (quiescence detection via /proc) and diff; utf8parse as standard UTF-8 validation; "
@@ -564,7 +572,7 @@ PROPS["C04"] = {
             "as C03 (segmenter, Unicode predicates from the implementation, WcWidth)",
             "the declarative spec Rl/Spec/Motion.lean is the reading of the property text (DESIGN.md 7.1 reading decisions)"],
         "level_text": "Declarative motion/span spec as executable oracle on the implementation plus Lean theorems relating model targets and "
-                      "kill/copy spans to the spec (every Movement except ViFirstPrint), for every lawful segmenter (two movements: every stable one).",
+                      "kill/copy spans to the spec (EVERY Movement, ViFirstPrint included since the repair of D46), for every lawful segmenter (two movements: every stable one).",
         "level_note": "Proved: character motions = whole clusters (forward and backward); the word loops of next_word_pos (anchors Start, "
                       "AfterEnd; motion and kill/copy range) and prev_word_pos return exactly the declarative n-th word start/end or the text end; "
                       "move_home/move_end = declarative line start/end; char searches f/F land on the n-th occurrence for every lawful segmenter, "
@@ -572,17 +580,16 @@ PROPS["C04"] = {
                       "(C04_char_search_partial; uaxSeg is: C04_uaxSeg_stable; false without it: C04_char_search_counterexample). "
                       "kill/copy = exactly the declarative span, text reported, rest unchanged, cursor at the span start, one theorem per movement "
                       "(C04_kill_<mvt>_is_span / C04_copy_<mvt>_is_span: chars, words, begin/end of line, whole line, line up/down, buffer ranges, "
-                      "char searches) assembled in C04_kill_is_span_partial / C04_copy_is_span_partial (every Movement but ViFirstPrint; hypotheses "
+                      "char searches, and since the repair of D46 vi ^: C04_moveToFirstPrint_target, C04_kill_viFirstPrint_is_span, C04_copy_viFirstPrint_is_span) "
+                      "assembled in the theorems C04_kill_is_span / C04_copy_is_span (EVERY Movement; the statements carry the segmenter hypotheses "
                       "S.Stable for T-searches and S.NlAlone = the line break is its own cluster for the whole-line kill of an empty line). "
                       "Vertical motion (after the D36 repair): lands in the n-th line above/below or the first/last, exactly on the declarative "
                       "verticalTarget = first cluster boundary of that line at or right of the cursor's display column, else the line end "
                       "(C04_moveToLineUp_dest / C04_moveToLineDown_dest); the display-column oracle checkVerticalCol is satisfied for every "
                       "lawful segmenter and every width function, wide and zero-width clusters included (C04_moveToLineUp_column, "
                       "C04_moveToLineDown_column, C04_vertical_column; a wide cluster straddling the column is stepped over). indent, edit_word, "
-                      "transpose_chars are checked by the oracle on the implementation only. Known findings: ViFirstPrint ranges, vi `e` with count > 1.",
+                      "transpose_chars are checked by the oracle on the implementation only. Known finding: vi `e` with count > 1.",
         "unproved": ["C04_word_target_beforeEnd_statement (refuted: C04_word_target_beforeEnd_counterexample, pinned by test::vi_cmd::e)",
-                     "C04_kill_is_span_statement (refuted for ViFirstPrint: C04_kill_viFirstPrint_counterexample; every other movement: C04_kill_is_span_partial)",
-                     "C04_copy_is_span_statement (refuted for ViFirstPrint: C04_copy_viFirstPrint_counterexample; every other movement: C04_copy_is_span_partial)",
                      "C04_char_search_statement (refuted for an unstable lawful segmenter: C04_char_search_counterexample; proved for stable ones)"],
         "assumptions": [],
     }
@@ -674,7 +681,7 @@ PROPS["C05"] = {
                      "scripted helpers are functions of the text (same table on both sides)",
                      "the theorems are about the Changeset model (Rl/Undo.lean) and the three line-buffer primitives Change::undo calls; that the editor model keeps `replayLog undos = line` across whole commands (every LineBuffer call reports exactly what it did: property C03) is checked by the differential run and the oracle, not proved"],
     "unproved": ['C05_abort_transparent_statement'],
-    "level_text": "Lean theorems, for every stack and every notification sequence (no bound), about the undo-log model: the stack is an exact log (replaying it oldest-first reproduces the line after any listener notifications, all three merge rules included: C05_log_replay, C05_log_markers); Begin/End stay balanced under begin / notifications / truncate and end closes all levels (C05_balanced); begin ... truncate(mark) restores stack and level exactly (C05_truncate_restores: the D10 repair); one pass of the undo loop pops exactly one unit - one change or one complete End..Begin group - for every repeat count (C05_undo_unit, also for the model's own loop); Change::undo inverts a recorded change on the line buffer, proved from the LineBuffer definitions (C05_undo_inverts); under the log invariant Undo with any count never panics and leaves the line at the replay of the remaining older log, and an emptied stack means the start text (C05_undo_past_text, C05_undo_to_empty). The editor model is diffed against the real editor on a pty and oracleC05 runs over the implementation's callbacks. Partial: the lifting of the log invariant and of abort transparency to whole editor commands (Ed states) is stated, not proved; D22 (a typed alphanumeric merges into a preceding yank/paste Insert) is recorded as a witness theorem and deliberately not judged by the oracle; Undo keeps the markers balanced (C05_undo_balanced: level = number of unmatched Begin markers after an Undo inside an open group too; D38 repaired) and a change replayed by . closes its own group (D39 repaired).",
+    "level_text": "Lean theorems, for every stack and every notification sequence (no bound), about the undo-log model: the stack is an exact log (replaying it oldest-first reproduces the line after any listener notifications, all three merge rules included: C05_log_replay, C05_log_markers); Begin/End stay balanced under begin / notifications / truncate and end closes all levels (C05_balanced); begin ... truncate(mark) restores stack and level exactly (C05_truncate_restores: the D10 repair); one pass of the undo loop pops exactly one unit - one change or one complete End..Begin group - for every repeat count (C05_undo_unit, also for the model's own loop); Change::undo inverts a recorded change on the line buffer, proved from the LineBuffer definitions (C05_undo_inverts); C05_abort_transparent_statement (kept as a def) is REFUTED in vi mode by kernel evaluation of the editor model (C05_abort_transparent_refuted, C05_D47_abort_leaves_stale_entry, C05_D47_read: finding D47, an aborted search during which insert mode was left keeps a stale Delete entry; the implementation agrees); under the log invariant Undo with any count never panics and leaves the line at the replay of the remaining older log, and an emptied stack means the start text (C05_undo_past_text, C05_undo_to_empty). The editor model is diffed against the real editor on a pty and oracleC05 runs over the implementation's callbacks. Partial: the lifting of the log invariant and of abort transparency to whole editor commands (Ed states) is stated, not proved; D22 (a typed alphanumeric merges into a preceding yank/paste Insert) is recorded as a witness theorem and deliberately not judged by the oracle; Undo keeps the markers balanced (C05_undo_balanced: level = number of unmatched Begin markers after an Undo inside an open group too; D38 repaired) and a change replayed by . closes its own group (D39 repaired).",
     "level_note": 'Trusted: Lean kernel; pty harness; the log-level theorems take the notification stream as given (its faithfulness is C03).',
     "assumptions": ["keyseq_timeout = None (default)"],
 }
@@ -708,7 +715,7 @@ PROPS["C01"] = {
                      "the README tables and the byte-encoding table are transcribed by hand into Rl/Spec/Doc.lean",
                      "the oracle stops judging (never guesses) where it cannot follow the key grouping: byte strings outside the documented encodings, completion and vi-mode search sub-loops, input ending inside a group"],
     "unproved": ["C01_self_insert_once_statement: REFUTED as written (it quantifies over helpers whose hinter panics: C01_self_insert_once_counterexample); the theorem C01_self_insert_once holds for every helper whose hinter does not panic"],
-    "level_text": "Lean theorems about the editor model, for every state, pending count and direction: every argument-free entry of the README tables — emacs mode, vi command mode, vi insert mode, each with the all-modes table — is mapped by the model's keymap (emacs / viCommand / viInsert) to the Cmd denoting the documented action resolved with the GNU count/direction conventions, the line untouched (C01_binding_table_emacs, _emacs_common, _vi_command, _vi_insert); for every operator d/c/y and every entry of the motion table viCmdMotion builds the documented movement, the count before the operator multiplied by the count before the motion, f/t/F/T + char remembered, the doubled operator = whole line (C01_vi_operator_motion, _counts, _char_search, _doubled); a custom-bound key yields exactly the bound command in all three keymaps, a bound two-key sequence its command and a non-completing pair none (C01_custom_binding_*, C01_custom_seq_binding, _fallback); the count handed to a command after M-[-]d1..dk is the signed decimal value, first four significant digits (C01_numeric_argument, C01_arg_value_*); a printable character is inserted exactly once at the cursor with any helper whose hinter does not panic (C01_self_insert_once; the unrestricted statement is refuted); no Move command changes the text (C01_motion_pure); C-c / C-d on the empty line / Enter on an accepted text end the read as documented at the step level, at the level of one main-loop iteration, from the decoded key in emacs mode and in the vi modes, and the value of readline is the text of the submitting state (C01_outcome_step, C01_outcome, C01_outcome_emacs_keys, C01_outcome_vi_keys, C01_outcome_readline). The editor model is diffed against the real Editor::readline on a pty, and the documented-meaning oracle (README tables as data, declarative C04 targets) runs on the implementation's callbacks for every generated script. Executing the denoted Cmd has the documented effect (C01_execute_refines_move / _kill / _change / _yank / _insert and the summary C01_execute_refines over the resolved actions): from a state with a well-formed growable line, a kill ring within bounds, a hinter that does not panic, a stable segmenter with the line break a cluster of its own, execute returns with status proceed and the line (text and cursor) is the one Act.apply — the oracle's declarative semantics — prescribes; C01_key_to_effect_emacs / _vi_command / _vi_insert chain the table theorems with it: from the decoded key of a README table to the effect on (text, cursor). Not covered by these theorems (oracle and C04 only): `^` as a motion or range and the BeforeEnd word targets (known findings), case changes (M-u M-l M-c), transpose-chars, vi r; and the cursor claim of a line-wise (dj, dk) or char-search kill that finds nothing to kill (KillCaveat).",
+    "level_text": "Lean theorems about the editor model, for every state, pending count and direction: every argument-free entry of the README tables — emacs mode, vi command mode, vi insert mode, each with the all-modes table — is mapped by the model's keymap (emacs / viCommand / viInsert) to the Cmd denoting the documented action resolved with the GNU count/direction conventions, the line untouched (C01_binding_table_emacs, _emacs_common, _vi_command, _vi_insert); for every operator d/c/y and every entry of the motion table viCmdMotion builds the documented movement, the count before the operator multiplied by the count before the motion, f/t/F/T + char remembered, the doubled operator = whole line (C01_vi_operator_motion, _counts, _char_search, _doubled); a custom-bound key yields exactly the bound command in all three keymaps, a bound two-key sequence its command and a non-completing pair none (C01_custom_binding_*, C01_custom_seq_binding, _fallback); the count handed to a command after M-[-]d1..dk is the signed decimal value, first four significant digits (C01_numeric_argument, C01_arg_value_*); a printable character is inserted exactly once at the cursor with any helper whose hinter does not panic (C01_self_insert_once; the unrestricted statement is refuted); no Move command changes the text (C01_motion_pure); C-c / C-d on the empty line / Enter on an accepted text end the read as documented at the step level, at the level of one main-loop iteration, from the decoded key in emacs mode and in the vi modes, and the value of readline is the text of the submitting state (C01_outcome_step, C01_outcome, C01_outcome_emacs_keys, C01_outcome_vi_keys, C01_outcome_readline). The editor model is diffed against the real Editor::readline on a pty, and the documented-meaning oracle (README tables as data, declarative C04 targets) runs on the implementation's callbacks for every generated script. Executing the denoted Cmd has the documented effect (C01_execute_refines_move / _kill / _change / _yank / _insert and the summary C01_execute_refines over the resolved actions): from a state with a well-formed growable line, a kill ring within bounds, a hinter that does not panic, a stable segmenter with the line break a cluster of its own, execute returns with status proceed and the line (text and cursor) is the one Act.apply — the oracle's declarative semantics — prescribes; C01_key_to_effect_emacs / _vi_command / _vi_insert chain the table theorems with it: from the decoded key of a README table to the effect on (text, cursor). `^` as a motion and as a range is covered since the repair of D46. Not covered by these theorems (oracle and C04 only): the BeforeEnd word targets (known finding), case changes (M-u M-l M-c), transpose-chars, vi r; and the cursor claim of a line-wise (dj, dk) or char-search kill that finds nothing to kill (KillCaveat).",
     "level_note": "Trusted: Lean kernel; pty harness; hand transcription of the README tables and byte encodings; the oracle stops judging where it cannot follow the key grouping. Reading decisions: vi C-d on a non-empty line, counts of 0, a minus typed after digits, `^` on a blank line, n-th character search with fewer than n occurrences, `a` with a count are not judged.",
     "assumptions": ["keyseq_timeout = None (default)"],
 }
